@@ -35,6 +35,11 @@ func (w *World) cmpValue(storage atree.SlabStorage, v atree.Value, m MVal, o cmp
 		if !ok || uint64(g) != uint64(x) {
 			return mm("content", "%s: got %v, want %s", path, v, describe(m))
 		}
+	case MByte:
+		g, ok := v.(Byte)
+		if !ok || byte(g) != byte(x) {
+			return mm("content", "%s: got %v, want %s", path, v, describe(m))
+		}
 	case MStr:
 		g, ok := v.(Str)
 		if !ok || g.S != string(x) {
@@ -136,6 +141,10 @@ func (w *World) cmpShallow(v atree.Value, m MVal, path string) *mismatch {
 			continue
 		case MU64:
 			if g, ok := v.(U64); !ok || uint64(g) != uint64(x) {
+				return mm("lookup", "%s: got %v, want %s", path, v, describe(m))
+			}
+		case MByte:
+			if g, ok := v.(Byte); !ok || byte(g) != byte(x) {
 				return mm("lookup", "%s: got %v, want %s", path, v, describe(m))
 			}
 		case MStr:
